@@ -136,6 +136,16 @@ type liveSess struct {
 
 // probe writes a unique message in both directions and checks delivery.
 func (s *liveSess) probe(r *Run, tag string) bool {
+	return s.probeC2S(r, tag) && s.probeS2C(r, tag)
+}
+
+// probeServerFirst probes server-to-client first (used when the server is the
+// endpoint whose address changed: the mover has to speak first).
+func (s *liveSess) probeServerFirst(r *Run, tag string) bool {
+	return s.probeS2C(r, tag) && s.probeC2S(r, tag)
+}
+
+func (s *liveSess) probeC2S(r *Run, tag string) bool {
 	ok := true
 	buf := make([]byte, 2048)
 	msg := append([]byte("probe-c2s-"+tag+"-"), r.Bytes("probe", 8)...)
@@ -155,6 +165,12 @@ func (s *liveSess) probe(r *Run, tag string) bool {
 			break
 		}
 	}
+	return ok
+}
+
+func (s *liveSess) probeS2C(r *Run, tag string) bool {
+	ok := true
+	buf := make([]byte, 2048)
 	msg2 := append([]byte("probe-s2c-"+tag+"-"), r.Bytes("probe", 8)...)
 	if err := s.h.WriteMsg(msg2); err != nil {
 		r.Logf("probe write s2c failed: %v", err)
